@@ -378,14 +378,17 @@ def gen_op(rng, dp, malformed):
             kw[rng.choice(["S", "R", "s", "P"])] = bad() if malformed else v("pos")
             if rng.random() < 0.3:
                 kw["T"] = rng.randint(0, 3)
-        st = {"kind": "table", "code": code, "params": list(kw.items()) if kw else None, "c": None, "desc": desc}
+        hcm = cm if rng.random() < 0.5 else None
+        st = {"kind": "table", "code": code, "params": list(kw.items()) if kw else None, "c": hcm, "desc": desc}
         if not kw:
             st["params"] = []  # halt always passes the (possibly empty) kwargs dict
             short = {"pause": ("pause", {}), "optional-pause": ("pause", {"optional": True}),
                      "end-without-reset": ("stop", {}), "end-with-reset": ("stop", {"reset": True}),
                      "wait-for-motion": ("wait", {})}.get(m)
-            if short and rng.random() < 0.5:
+            if short and hcm is None and rng.random() < 0.5:
                 return short[0], C(short[0], **short[1]), [st]
+        if hcm is not None or rng.random() < 0.3:
+            kw = {**kw, "comment": hcm}
         return "halt", C("halt", m, **kw), [st]
     if kind == "comment":
         text = rng.choice([c for c in COMMENTS if c is not None])
